@@ -200,6 +200,24 @@ pub fn cases(tier: &str, seed: u64) -> Vec<Case> {
         }
         v.push(parse_case(&b, "pointer-chain"));
     }
+    // the worst case for time: a pure pointer chain (inside the opaque RDATA of a first record) and as
+    // many records as fit whose owner points at the end of the chain
+    for total in [4000usize, 16000, 65535] {
+        let chain_len = ((total / 4).min(16000 - 30)) / 2 * 2;
+        let mut b = vec![0u8, 1, 0x80, 0, 0, 0, 0, 0, 0, 0, 0, 0];
+        b.extend_from_slice(&[0, 0, 10, 0, 1, 0, 0, 0, 0]);
+        b.extend_from_slice(&(chain_len as u16).to_be_bytes());
+        let start = b.len();
+        let mut prev = 4usize;
+        while b.len() < start + chain_len { let at = b.len(); b.push(0xC0 | (prev >> 8) as u8); b.push(prev as u8); prev = at; }
+        let mut n = 1u16;
+        while b.len() + 12 <= total { b.push(0xC0 | (prev >> 8) as u8); b.push(prev as u8); b.extend_from_slice(&[0, 1, 0, 1, 0, 0, 0, 0, 0, 0]); n += 1; }
+        b[6..8].copy_from_slice(&n.to_be_bytes());
+        // the list-based Lean model would need hours on the big ones: implementation and budgets only
+        let mut c = parse_case(&b, "pure-pointer-chain");
+        if total > 4000 { c.proj = Proj::None; c.op = String::new(); }
+        v.push(c);
+    }
     // random bytes and random mutations of bigger packets
     let n = if thorough { 60_000 } else { 3_000 };
     for i in 0..n {
